@@ -418,4 +418,109 @@ def decReqIds (raw : Bytes) : ReqIds :=
         | none => .opaque raw
     | _ => .opaque raw
 
+/-! ## `SubTransactions []UserData`: the canonical JSON class
+
+`pbToTransaction` runs `json.Unmarshal(raw, &subTransactions)`; the in-memory value is compared
+through `json.Marshal`. For bytes that are exactly what `json.Marshal` emits for some `[]UserData`
+(recognised by parsing them and re-encoding), that rendering is `raw` itself. -/
+
+structure UserData where
+  address : Nat
+  balance : Bytes
+  coin : List (Bytes × Bytes)
+  ft : List (Bytes × Bytes)
+  assets : Option (List (Bytes × Bytes))
+  deriving Repr, DecidableEq, Inhabited
+
+def insertSS (k v : Bytes) : List (Bytes × Bytes) → List (Bytes × Bytes)
+  | [] => [(k, v)]
+  | (k', v') :: rest =>
+    if bytesLt k k' then (k, v) :: (k', v') :: rest
+    else if k = k' then (k, v) :: rest
+    else (k', v') :: insertSS k v rest
+
+def encSMap (m : List (Bytes × Bytes)) : Bytes :=
+  [123] ++ commaSep (m.map (fun kv => jsonQuote kv.1 ++ [58] ++ jsonQuote kv.2)) ++ [125]
+
+def encUserData (u : UserData) : Bytes :=
+  ascii "{\"address\":" ++ decNat u.address ++
+  (if u.balance = [] then [] else ascii ",\"balance\":" ++ jsonQuote u.balance) ++
+  (if u.coin = [] then [] else ascii ",\"coin\":" ++ encSMap u.coin) ++
+  (if u.ft = [] then [] else ascii ",\"ft\":" ++ encSMap u.ft) ++
+  ascii ",\"Assets\":" ++ (match u.assets with | none => jsonNull | some m => encSMap m) ++ [125]
+
+/-- `json.Marshal([]UserData)` for a non-nil slice. -/
+def encSubTx (l : List UserData) : Bytes := [91] ++ commaSep (l.map encUserData) ++ [93]
+
+def expect (lit : Bytes) (bs : Bytes) : Option Bytes :=
+  if lit.isPrefixOf bs then some (bs.drop lit.length) else none
+
+def parseStr : Bytes → Option (Bytes × Bytes)
+  | 34 :: r => unquoteStr (r.length + 1) r
+  | _ => none
+
+def parseSMapEntries : Nat → Bytes → List (Bytes × Bytes) → Option (List (Bytes × Bytes) × Bytes)
+  | 0, _, _ => none
+  | f + 1, bs, acc =>
+    match parseStr bs with
+    | none => none
+    | some (k, r1) =>
+      match r1 with
+      | 58 :: r2 =>
+        match parseStr r2 with
+        | none => none
+        | some (v, r3) =>
+          match r3 with
+          | 125 :: r4 => some (insertSS k v acc, r4)
+          | 44 :: r4 => parseSMapEntries f r4 (insertSS k v acc)
+          | _ => none
+      | _ => none
+
+def parseSMap : Bytes → Option (List (Bytes × Bytes) × Bytes)
+  | 123 :: 125 :: r => some ([], r)
+  | 123 :: r => parseSMapEntries (r.length + 1) r []
+  | _ => none
+
+def parseUserData (bs : Bytes) : Option (UserData × Bytes) := do
+  let r0 ← expect (ascii "{\"address\":") bs
+  let (addr, r1) ← parseNum r0
+  let (bal, r2) ← (match expect (ascii ",\"balance\":") r1 with
+    | some r => parseStr r
+    | none => some ([], r1))
+  let (coin, r3) ← (match expect (ascii ",\"coin\":") r2 with
+    | some r => parseSMap r
+    | none => some ([], r2))
+  let (ft, r4) ← (match expect (ascii ",\"ft\":") r3 with
+    | some r => parseSMap r
+    | none => some ([], r3))
+  let r5 ← expect (ascii ",\"Assets\":") r4
+  let (assets, r6) ← (match expect jsonNull r5 with
+    | some r => some (none, r)
+    | none => (parseSMap r5).map (fun p => (some p.1, p.2)))
+  match r6 with
+  | 125 :: r7 => some (⟨addr, bal, coin, ft, assets⟩, r7)
+  | _ => none
+
+def parseUserDatas : Nat → Bytes → List UserData → Option (List UserData)
+  | 0, _, _ => none
+  | f + 1, bs, acc =>
+    match parseUserData bs with
+    | none => none
+    | some (u, r) =>
+      match r with
+      | [93] => some (acc ++ [u])
+      | 44 :: r2 => parseUserDatas f r2 (acc ++ [u])
+      | _ => none
+
+def parseSubTx : Bytes → Option (List UserData)
+  | [91, 93] => some []
+  | 91 :: r => parseUserDatas (r.length + 1) r []
+  | _ => none
+
+/-- `raw` is exactly `json.Marshal` of some `[]UserData` value. -/
+def canonSubTx (raw : Bytes) : Bool :=
+  match parseSubTx raw with
+  | some l => encSubTx l == raw
+  | none => false
+
 end Rangers.Json
